@@ -91,13 +91,17 @@ def private_helper_resolver(py: PyRepo, cls: str):
     import ast as _ast
     ci = py.cls(cls, 'pattern')
     mi = py.modules[ci.module]
+    # the API of the hierarchy = what its root declares; any other method of a class (a hook of a shared base, a helper with a public
+    # name) is implementation detail like the underscore-named ones
+    root = py.mro(ci)[-1]
+    api = set(root.methods) | {'simplify', 'pretty', 'deconstruct', 'unwrap', 'extract'}
 
     def resolver(call, env, _ev):
         f = call.func
         if isinstance(f, _ast.Name) and f.id.startswith('_') and not f.id.startswith('__') and f.id in mi.functions and f.id not in env:
             return mi.functions[f.id], None
         if isinstance(f, _ast.Attribute) and isinstance(f.value, _ast.Name) and env.get(f.value.id) == SELF \
-                and f.attr.startswith('_') and not f.attr.startswith('__'):
+                and not f.attr.startswith('__') and (f.attr.startswith('_') or f.attr not in api):
             hit = py.find_method(ci, f.attr)
             if hit is None:
                 return None
